@@ -55,7 +55,7 @@ def make_adapter(m):
 
     tab = models.symtab(m)
     return python.SklearnEKFAdapter.Create(models.ui_model(m, tab), models.process_noise(m, tab), models.sensor_models(m, tab),
-                                           models.sensor_noises(m), models.calibration_map(m, tab), config=models.py_config(m))
+                                           models.sensor_noises(m), models.calibration_map(m, tab), config=models.py_config(m, _object=True))
 
 
 def snapshot(ad):
